@@ -24,7 +24,7 @@ import re
 from hypothesis import strategies as st
 
 from vf import runner
-from vf.engine import Case, Failure, h
+from vf.engine import Case, Failure, h, live_first
 from vf.oracle import c03_drynorm as dn
 from vf.project import Project
 from vf.render import c03_dryproj as rp
@@ -217,7 +217,7 @@ def applicable_deviations(langs) -> list:
         for n in dn.NORMALISER_DEVIATIONS[lang]:
             if n not in names:
                 names.append(n)
-    return names + list(OUTPUT_DEVIATIONS)
+    return live_first("C03", names + list(OUTPUT_DEVIATIONS))
 
 
 def _overlaps(s1, e1, s2, e2):
